@@ -189,6 +189,9 @@ class Server:
         self.on_client_write = None
         self.on_notify_call = None
         self.mempool_error = None
+        self.refresh_started_at = 0.0
+        self.mp_deliveries = []     # (refresh start, delivery time, height)
+        self.backups = []           # virtual times at which a block was backed out
         self.max_latency = max_latency
         self.log = LogCapture()
         self.clients = []
@@ -220,6 +223,7 @@ class Server:
                 # a refresh starts here: remember which world it can at best reflect
                 res = await real_mh()
                 server.refresh_versions.append(server.world.version)
+                server.refresh_started_at = asyncio.get_event_loop().time()
                 return res
             d.mempool_hashes = mempool_hashes
             return d
@@ -228,6 +232,7 @@ class Server:
             async def on_mempool(self, touched, height):
                 loop = asyncio.get_event_loop()
                 server.calls.append((loop.time(), 'on_mempool', height, len(touched)))
+                server.mp_deliveries.append((server.refresh_started_at, loop.time(), height))
                 if server.refresh_versions:
                     server.delivered_version = server.refresh_versions[-1]
                 if server.on_notify_call:
@@ -286,7 +291,16 @@ class Server:
         SM.__name__ = 'SessionManager'
         controller_mod.SessionManager = SM
         controller_mod.Notifications = Notif
-        bp_mod.BlockProcessor = recording(REAL['BlockProcessor'], 'bp')
+        class BP(REAL['BlockProcessor']):
+            def __init__(self, *a, **k):
+                server.created['bp'] = self
+                super().__init__(*a, **k)
+
+            def backup_block(self, block):
+                super().backup_block(block)
+                server.backups.append(asyncio.get_event_loop().time())
+        BP.__name__ = 'BlockProcessor'
+        bp_mod.BlockProcessor = BP
 
     @staticmethod
     def unpatch():
